@@ -28,6 +28,25 @@ class Conditions:
         assert isinstance(cond, Expr)
         self.data.append(cond)
 
+    def add_interval_condition(self, var: str, lower: Expr, upper: Expr):
+        """Add the conditions that var lies between the bounds of an integral.
+
+        Constant bounds may come in descending order (INT x:[0,-1]. f, as returned by
+        SplitRegion for a point outside the interval): x > 0, x < -1 would be
+        contradictory and would make every sign query succeed.
+
+        """
+        if lower.is_evaluable() and upper.is_evaluable():
+            try:
+                if expr.eval_expr(lower) > expr.eval_expr(upper):
+                    lower, upper = upper, lower
+            except NotImplementedError:
+                pass
+        if lower != expr.NEG_INF:
+            self.add_condition(expr.Op(">", expr.Var(var), lower))
+        if upper != expr.POS_INF:
+            self.add_condition(expr.Op("<", expr.Var(var), upper))
+
     def __eq__(self, other):
         return isinstance(other, Conditions) and self.data == other.data
 
